@@ -40,6 +40,9 @@ def gen(tier, seed):
     add("keywords", "c04-unit-keywords", "keyword_invariance(lv1, u1, lv2, g)", ["pre: 0 <= lv1 <= 5 and 0 <= u1 <= 10 and 0 <= lv2 <= 5 and 0 <= g <= 1"],
         "the string forms of a units declaration: \"default\" is the package default system whatever encloses the object, \"inherit\" the enclosing one - one level declares a catalogue system, another says \"default\", the others say \"inherit\"; the physical content is that of the reference script",
         "lv1: int, u1: int, lv2: int, g: int", viol="a units keyword (\"default\" / \"inherit\") resolves to the wrong units system")
+    add("kinetics_mixed", "c04-kinetics-mixed-units", "kinetics_mixed_units(u1, u2, g)", ["pre: 0 <= u1 <= 10 and 0 <= u2 <= 10 and 0 <= g <= 1"],
+        "per-environment dictionaries (D, rate constants) whose entries are written in two different catalogue systems: the Python rate of change (compute_dstatedt, SI) equals that of the same model in bare default-unit numbers, with neighbouring cells in the two environments (grid and graph)",
+        "u1: int, u2: int, g: int", viol="the rate of change depends on the units in which per-environment entries are written")
     add("abi", "c04-abi", "abi_invariance(lv, u, eu, opt, ex, g)", ["pre: 0 <= lv <= 4 and 0 <= u <= 10 and 0 <= eu <= 10 and 0 <= opt <= 2 and 0 <= ex <= 2 and 0 <= g <= 1" if tier != "quick" else
                                                                      "pre: 0 <= lv <= 4 and 0 <= u <= 10 and eu == (u * 5 + lv) % 11 and 0 <= opt <= 2 and ex == (u + lv) % 3 and 0 <= g <= 1"],
         "the arrays handed to the native engine (state, volume, k, D, sample times, t_max, dt, interval), re-expressed in SI, do not depend on the units used to describe the script, for every engine kind and output units system",
